@@ -1,0 +1,90 @@
+//! Verification hooks, compiled only with `--cfg nucleo_verif`.
+//!
+//! Nothing in here is reachable in a normal build: the module declaration in
+//! `lib.rs` and the single call in `matrix.rs` are `#[cfg(nucleo_verif)]`.
+#![allow(missing_docs)]
+
+use std::cell::RefCell;
+
+use crate::chars::{AsciiChar, Char};
+use crate::{Config, Matcher};
+
+/// Byte extents of the five views handed out by one `MatrixSlab::alloc` call,
+/// relative to the start of the slab allocation.
+#[derive(Debug, Clone, PartialEq, Eq)]
+pub struct Extents {
+    pub slab_size: usize,
+    pub haystack_len: usize,
+    pub needle_len: usize,
+    pub char_size: usize,
+    /// (offset in bytes, length in bytes, alignment of the element type)
+    /// for haystack, bonus, row_offs, current_row, matrix_cells
+    pub views: [(usize, usize, usize); 5],
+}
+
+thread_local! {
+    static EXTENTS: RefCell<Vec<Extents>> = const { RefCell::new(Vec::new()) };
+    static RECORD: RefCell<bool> = const { RefCell::new(false) };
+}
+
+pub fn set_recording(on: bool) {
+    RECORD.with(|r| *r.borrow_mut() = on);
+}
+
+pub fn take_extents() -> Vec<Extents> {
+    EXTENTS.with(|e| std::mem::take(&mut *e.borrow_mut()))
+}
+
+pub(crate) fn record_extents(e: Extents) {
+    if RECORD.with(|r| *r.borrow()) {
+        EXTENTS.with(|v| v.borrow_mut().push(e));
+    }
+}
+
+/// Overwrites the whole scratch allocation of `matcher` with `byte`.
+pub fn poison_slab(matcher: &mut Matcher, byte: u8) {
+    matcher.slab.poison(byte)
+}
+
+pub fn slab_size() -> usize {
+    crate::matrix::slab_size()
+}
+
+/// numeric value of the (crate-private) character class
+fn class_id(c: crate::chars::CharClass) -> u8 {
+    c as u8
+}
+
+pub fn class_char(c: char, config: &Config) -> u8 {
+    class_id(c.char_class(config))
+}
+pub fn norm_char(c: char, config: &Config) -> char {
+    c.normalize(config)
+}
+pub fn cnorm_char(c: char, config: &Config) -> (char, u8) {
+    let (c, class) = c.char_class_and_normalize(config);
+    (c, class_id(class))
+}
+pub fn class_ascii(c: u8, config: &Config) -> u8 {
+    class_id(AsciiChar(c).char_class(config))
+}
+pub fn norm_ascii(c: u8, config: &Config) -> u8 {
+    AsciiChar(c).normalize(config).0
+}
+pub fn cnorm_ascii(c: u8, config: &Config) -> (u8, u8) {
+    let (c, class) = AsciiChar(c).char_class_and_normalize(config);
+    (c.0, class_id(class))
+}
+pub fn bonus_for(prev: u8, class: u8, config: &Config) -> u16 {
+    use crate::chars::CharClass::*;
+    let of = |x: u8| match x {
+        0 => Whitespace,
+        1 => NonWord,
+        2 => Delimiter,
+        3 => Lower,
+        4 => Upper,
+        5 => Letter,
+        _ => Number,
+    };
+    config.bonus_for(of(prev), of(class))
+}
